@@ -401,7 +401,7 @@ def write_tlc_cfg(path, keys, strict):
         f.write("POSTCONDITION TraceAccepted\nCHECK_DEADLOCK FALSE\n")
 
 
-def tlc_trace(trace_path, strict, keys, workdir, name, module="SeqTrace", timeout=900, heap="3g", extra_env=None,
+def tlc_trace(trace_path, strict, keys, workdir, name, module="SeqTrace", timeout=1800, heap="3g", extra_env=None,
               cfg_writer=None):
     """Validate one ndjson log.  Returns dict(accepted, depth, n, rc, out)."""
     os.makedirs(workdir, exist_ok=True)
@@ -577,10 +577,12 @@ def scale_mass_expiry(rng, kind, n):
     return lines
 
 
-def scale_long_ranges(rng, kind, cap=40):
-    """ranges of 20-70 elements with duplicates, bigger than the capacity, every allow mode and argument
-    container; then enough fresh keys to reveal the order the ranges left behind"""
-    keys = 100
+def scale_long_ranges(rng, kind, cap=85):
+    """ranges of 20-70 elements with duplicates, every allow mode and argument container, while the cache
+    still has room (80 distinct keys, capacity 85: no victim has to be guessed inside a range, whatever the
+    slice); then fresh single inserts until 20 entries have been evicted, which reveals the order the
+    ranges left behind"""
+    keys = 105
     c = _scale_cfg(rng, kind, cap, keys, ttl=4000)
     lines = [cfg_line(c)]
     plan = [(3, 0, 70), (1, 0, 35), (2, 0, 70), (3, 1, 35), (1, 0, 70), (3, 3 if kind == "fifo" else 0, 35)]
@@ -595,7 +597,9 @@ def scale_long_ranges(rng, kind, cap=40):
         if rng.random() < 0.4:
             ks3 = [rng.randint(1, 80) for _i in range(20)]
             lines.append("erar 0 %d %s" % (len(ks3), " ".join(map(str, ks3))))
-    for k in range(81, 101):
+    for k in range(1, 81):            # make sure all 80 are resident (insert-only: no reordering of those that are)
+        lines.append("ins %d 2 1 4000" % k)
+    for k in range(81, 106):
         lines.append("ins %d 3 3 4000" % k)
     lines.append("destroy")
     return lines
